@@ -96,6 +96,79 @@ def nan_discipline_inplace(f, g, fld, repo=None):
     return (not problems), ("; ".join(problems) if problems else "two-sided guard")
 
 
+def keyed_merge_rule(rep, rule, c, f, fld, sn, on, rid="R7.1", what="`a += b`"):
+    """Bag.values: per-key evaluation of the merge loop (hgsa/keyed.py)."""
+    from ..keyed import WANT, KeyedMerge, Undecided, show
+
+    def is_src(e):
+        return isinstance(e, ast.Attribute) and e.attr == fld and isinstance(e.value, ast.Name) and e.value.id == on
+
+    def is_dst(e):
+        return isinstance(e, ast.Attribute) and e.attr == fld and isinstance(e.value, ast.Name) and e.value.id != on
+
+    loops = [n for n in walk_local_stmt(f.node) if isinstance(n, ast.For) and any(is_src(x) for x in ast.walk(n.iter))]
+    if not loops:
+        rule.ob(True, f"{c.name}.{f.name}: no loop over `{on}.{fld}` (merged some other way; not decided by the keyed form)")
+        return
+    for loop in loops:
+        try:
+            got = KeyedMerge(loop, is_dst, is_src).outcomes()
+        except Undecided as e:
+            rule.ob(True, f"{c.name}.{f.name}: merge loop at line {loop.lineno} not in the keyed language ({e}); not decided")
+            continue
+        for label, want in WANT.items():
+            ok = got[label] == want
+            rule.ob(ok, f"{c.name}.{f.name}: key on {label}: new value {show(got[label])}")
+            if not ok:
+                rep.finding(rid, f, loop, f"merging `{on}.{fld}` key by key: for a key present on {'both sides' if label == 'both' else 'the right only'} "
+                            f"the loop leaves {show(got[label])} at that key, the merge must leave {show(want)}: {what} miscounts those values",
+                            stmt=f"{fld}: keyed merge, key on {label}")
+
+
+def loop_invariant_accumulation(rep, rule, c, f, sn):
+    for loop in walk_local_stmt(f.node):
+        if not isinstance(loop, ast.For):
+            continue
+        bound = {n.id for n in ast.walk(loop.target) if isinstance(n, ast.Name)}
+        changed = True
+        body_stmts = [n for b in loop.body for n in ast.walk(b) if isinstance(n, (ast.Assign, ast.AugAssign, ast.For))]
+        while changed:
+            changed = False
+            for n in body_stmts:
+                if isinstance(n, ast.For):
+                    tg, val = [n.target], n.iter
+                elif isinstance(n, ast.Assign):
+                    tg, val = n.targets, n.value
+                else:
+                    tg, val = [n.target], n.value
+                if any(isinstance(x, ast.Name) and x.id in bound for x in ast.walk(val)) or isinstance(n, ast.For):
+                    for t in tg:
+                        for x in ast.walk(t):
+                            if isinstance(x, ast.Name) and isinstance(x.ctx, ast.Store) and x.id not in bound:
+                                bound.add(x.id)
+                                changed = True
+        for n in body_stmts:
+            tgt = val = None
+            if isinstance(n, ast.AugAssign):
+                tgt, val = n.target, n.value
+            elif isinstance(n, ast.Assign) and len(n.targets) == 1 and isinstance(n.value, ast.BinOp) and any(
+                    ast.dump(x) == ast.dump(n.targets[0]).replace("Store()", "Load()") for x in (n.value.left, n.value.right)):
+                tgt, val = n.targets[0], n.value
+            if tgt is None:
+                continue
+            base = tgt
+            while isinstance(base, (ast.Subscript, ast.Attribute)):
+                base = base.value
+            if not (isinstance(base, ast.Name) and base.id == sn and not isinstance(tgt, ast.Name)):
+                continue
+            dep = any(isinstance(x, ast.Name) and x.id in bound for x in list(ast.walk(tgt)) + list(ast.walk(val)))
+            rule.ob(dep, f"{c.name}.{f.name}: `{norm(n)}` in the loop at line {loop.lineno} depends on the loop variables")
+            if not dep:
+                rep.finding("R7.5", f, n, f"`{norm(n)}` accumulates into own state inside the loop at line {loop.lineno} but mentions none of the loop's "
+                            f"variables: it runs once per child (and not at all without children), so `a += b` adds this part of b several times "
+                            f"while `a + b` adds it once", stmt=f"loop-invariant accumulation {norm(n)}")
+
+
 def must_merge_on_all_paths(repo, rep, r1, c, m, f, dv):
     """Forward must-analysis over the CFG of __iadd__: the set of content fields already merged.  A loop that merges (or
     inserts) children of a slot counts as merging that slot (zero iterations = nothing to merge)."""
@@ -177,6 +250,7 @@ def run(repo, rep, tier):
     r1 = rep.rule("R7.1", "__iadd__ merges every content field the way __add__ does (delegation or in-place idiom)", floor=50)
     r2 = rep.rule("R7.2", "every normal path of __iadd__ returns self", floor=19)
     r3 = rep.rule("R7.3", "`other` is never written; nothing borrowed from `other` is stored into `self`", floor=19)
+    r5 = rep.rule("R7.5", "no loop-invariant accumulation of own state inside a merge loop (it would run once per child)", floor=1)
     r4 = rep.rule("R7.4", "fillsparksql merges the partial result with `self += delta`", floor=1)
     for c in prims:
         m = models[c.name]
@@ -278,6 +352,13 @@ def run(repo, rep, tier):
                     if not ins:
                         rep.finding("R7.1", f, f.node, f"bins of `{on}.{s}` whose key is absent from `{sn}.{s}` are never inserted: "
                                     f"`+=` drops the right operand's new bins", stmt=f"right-only keys of {s} dropped")
+        # R7.1 (keyed form): a dictionary accumulator (Bag.values) merged key by key: the new value at a key on both sides is
+        # self[k] + other[k], at a key only on the right it is other[k]
+        if dv is None and m.name == "Bag":
+            keyed_merge_rule(rep, r1, c, f, "values", sn, on)
+        # R7.5: an accumulating store of own state inside a loop must depend on the loop (otherwise it runs once per iteration)
+        if dv is None:
+            loop_invariant_accumulation(rep, r5, c, f, sn)
         # R7.1 (formula form): for the scalar leaves merged in place, the new state equals the state of self + other as rational functions
         if dv is None and c.name in ("Count", "Sum", "Average", "Deviate"):
             from ..formulas import LeafScenario, add_state, run_body
